@@ -30,7 +30,10 @@
    frame itself is free (whatever datagrams the master chose); the first (identification)
    datagram of a frame is not part of F.
 
-   cfg  = [terms |-> << [station, fmmu, in_off, out_off, fm |-> << [logical, length, phys, dir] >>] >>,
+   cfg  = [terms |-> << [station, fmmu_in, fmmu_out (is that direction of the terminal's process
+                         data exchanged by logical addressing through an FMMU, or by its
+                         station address), in_off, out_off,
+                         fm |-> << [logical, length, phys, dir] >>] >>,
            vars  |-> << [term, sm ("in"/"out"), pos, n (bytes), bit (-1 = whole value)] >>,
            ndev  |-> number of devices]
    datagram = [cmd, adp, ado, laddr, len, data (sequence of bytes), wkc (0..65535)]           *)
@@ -73,7 +76,7 @@ Locs(c, F, v) ==
     LET t    == c.terms[v.term]
         dir  == IF v.sm = "in" THEN 1 ELSE 2
         pa   == (IF v.sm = "in" THEN t.in_off ELSE t.out_off) + v.pos  \* physical address
-    IN IF t.fmmu
+    IN IF (IF v.sm = "in" THEN t.fmmu_in ELSE t.fmmu_out)
        THEN { <<p[1], (t.fm[p[2]].logical + (pa - t.fm[p[2]].phys)) - F[p[1]].laddr + 1>> :
                 p \in { q \in (DOMAIN F) \X (DOMAIN t.fm) :
                           LET d == F[q[1]]
